@@ -61,6 +61,10 @@ def match_back(s, end):
                     j += 1
                 j += 1
             i = j + 1; continue
+        if c == "'" and i + 2 < n and (s[i + 2] == "'" or (s[i + 1] == '\\')):
+            j = s.find("'", i + 2 if s[i + 1] != '\\' else i + 3)
+            if j != -1 and j - i < 12:
+                i = j + 1; continue
         if c == '(':
             stack.append(i)
         elif c == ')':
@@ -297,6 +301,8 @@ def parse_stmt(line):
         callpart = rhs[:cm.start()]
         ret = cm.group(2) or cm.group(3)
         o = match_back(callpart, len(callpart) - 1)
+        if o is None:
+            raise ValueError("call? " + s[:300])
         callee = callpart[:o]
         args = [parse_operand(a) for a in split_top(callpart[o + 1:-1])]
         return ("call", parse_place(lhs), callee.strip(), args, int(ret) if ret else None)
